@@ -544,21 +544,232 @@ class ShimQueue:
         self._s.point("queue.qsize")
         return len(self._d)
 
+    def full(self):
+        return False
+
+    def task_done(self):
+        pass
+
+    def join(self):
+        pass
+
+
+class ShimRLock:
+    def __init__(self, sched):
+        self._s = sched
+        self._owner = None
+        self._depth = 0
+
+    def acquire(self, blocking=True, timeout=-1):
+        s = self._s
+        me = s.current
+        if self._owner is me:
+            self._depth += 1
+            return True
+        if not blocking:
+            s.point("lock.try")
+            if self._owner is not None:
+                return False
+        else:
+            r = s.point("lock.acquire", pred=lambda: self._owner is None, timeout=None if timeout is None or timeout < 0 else timeout)
+            if r != "ok":
+                return False
+        self._owner, self._depth = s.current, 1
+        return True
+
+    def release(self):
+        self._s.point("lock.release")
+        if self._owner is not self._s.current:
+            raise RuntimeError("cannot release un-acquired lock")
+        self._depth -= 1
+        if self._depth == 0:
+            self._owner = None
+            self._s.point("lock.released")
+
+    def locked(self):
+        return self._owner is not None
+
+    def __enter__(self):
+        self.acquire()
+        return self
+
+    def __exit__(self, *a):
+        self.release()
+
+
+class ShimSemaphore:
+    def __init__(self, sched, value=1, bound=None):
+        if value < 0:
+            raise ValueError("semaphore initial value must be >= 0")
+        self._s = sched
+        self._value = value
+        self._bound = bound
+
+    def acquire(self, blocking=True, timeout=None):
+        s = self._s
+        if not blocking:
+            s.point("sem.try")
+            if self._value <= 0:
+                return False
+        else:
+            r = s.point("sem.acquire", pred=lambda: self._value > 0, timeout=timeout)
+            if r != "ok" or self._value <= 0:
+                return False
+        self._value -= 1
+        return True
+
+    def release(self, n=1):
+        self._s.point("sem.release")
+        if self._bound is not None and self._value + n > self._bound:
+            raise ValueError("Semaphore released too many times")
+        self._value += n
+
+    def __enter__(self):
+        self.acquire()
+        return self
+
+    def __exit__(self, *a):
+        self.release()
+
+
+class ShimCondition:
+    def __init__(self, sched, lock=None):
+        self._s = sched
+        self._lock = lock if lock is not None else ShimRLock(sched)
+        self._gen = 0          # notify_all generation
+        self._tickets = 0      # single notifications not yet consumed
+        self.acquire = self._lock.acquire
+        self.release = self._lock.release
+
+    def __enter__(self):
+        self._lock.acquire()
+        return self
+
+    def __exit__(self, *a):
+        self._lock.release()
+
+    def wait(self, timeout=None):
+        s = self._s
+        gen = self._gen
+        depth = getattr(self._lock, "_depth", 1)
+        for _ in range(depth if isinstance(self._lock, ShimRLock) else 1):
+            self._lock.release()
+        r = s.point("cond.wait", pred=lambda: self._gen != gen or self._tickets > 0, timeout=timeout)
+        ok = r == "ok" and (self._gen != gen or self._tickets > 0)
+        if ok and self._gen == gen:
+            self._tickets -= 1
+        for _ in range(depth if isinstance(self._lock, ShimRLock) else 1):
+            self._lock.acquire()
+        return ok
+
+    def wait_for(self, predicate, timeout=None):
+        end = None if timeout is None else self._s.now + timeout
+        result = predicate()
+        while not result:
+            left = None if end is None else end - self._s.now
+            if left is not None and left <= 0:
+                break
+            self.wait(left)
+            result = predicate()
+        return result
+
+    def notify(self, n=1):
+        self._s.point("cond.notify")
+        self._tickets += n
+
+    def notify_all(self):
+        self._s.point("cond.notify")
+        self._gen += 1
+        self._tickets = 0
+
+    notifyAll = notify_all
+
+
+class ShimTimer(ShimThread):
+    def __init__(self, sched, interval, function, args=None, kwargs=None):
+        self._cancelled = ShimEvent(sched)
+        a, k = args or (), kwargs or {}
+
+        def run():
+            self._cancelled.wait(interval)
+            if not self._cancelled.is_set():
+                function(*a, **k)
+        ShimThread.__init__(self, sched, target=run, name="Timer", daemon=True)
+
+    def cancel(self):
+        self._cancelled.set()
+
+
+class ShimLocal:
+    """threading.local for controlled threads: one namespace per controlled thread"""
+    def __init__(self, sched):
+        object.__setattr__(self, "_s", sched)
+        object.__setattr__(self, "_d", {})
+
+    def _ns(self):
+        return self._d.setdefault(id(self._s.current), {})
+
+    def __getattr__(self, k):
+        try:
+            return self._ns()[k]
+        except KeyError:
+            raise AttributeError(k)
+
+    def __setattr__(self, k, v):
+        self._ns()[k] = v
+
+    def __delattr__(self, k):
+        try:
+            del self._ns()[k]
+        except KeyError:
+            raise AttributeError(k)
+
+
+class ShimLifoQueue(ShimQueue):
+    def get(self, block=True, timeout=None):
+        if not block:
+            self._s.point("queue.get_nowait")
+            if not self._d:
+                raise _real_queue.Empty()
+            return self._d.pop()
+        r = self._s.point("queue.get", pred=lambda: bool(self._d), timeout=timeout)
+        if r != "ok" or not self._d:
+            raise _real_queue.Empty()
+        return self._d.pop()
+
 
 def make_threading(sched):
+    """stands in for the `threading` module inside the library: every primitive the module offers exists here in a scheduler-aware
+    form, so that a change of the library from one primitive to another is judged by the checks instead of breaking the harness"""
     ns = types.SimpleNamespace()
     ns.Thread = lambda *a, **k: ShimThread(sched, *a, **k)
     ns.Lock = lambda: ShimLock(sched)
+    ns.RLock = lambda: ShimRLock(sched)
     ns.Event = lambda: ShimEvent(sched)
+    ns.Semaphore = lambda value=1: ShimSemaphore(sched, value)
+    ns.BoundedSemaphore = lambda value=1: ShimSemaphore(sched, value, bound=value)
+    ns.Condition = lambda lock=None: ShimCondition(sched, lock)
+    ns.Timer = lambda interval, function, args=None, kwargs=None: ShimTimer(sched, interval, function, args, kwargs)
+    ns.local = lambda: ShimLocal(sched)
     ns.Barrier = lambda parties, action=None, timeout=None: ShimBarrier(sched, parties, action, timeout)
     ns.BrokenBarrierError = BrokenBarrierError
-    ns.current_thread = lambda: types.SimpleNamespace(name=sched.current.name if sched.current else "?")
+    ns.current_thread = lambda: types.SimpleNamespace(name=sched.current.name if sched.current else "?", ident=id(sched.current),
+                                                      daemon=bool(getattr(sched.current, "daemon", False)), is_alive=lambda: True)
+    ns.main_thread = lambda: types.SimpleNamespace(name="MainThread", ident=0, daemon=False, is_alive=lambda: True)
+    ns.get_ident = lambda: id(sched.current)
+    ns.get_native_id = lambda: id(sched.current)
+    ns.active_count = lambda: len([t for t in sched.threads if t.state != "finished"])
+    ns.enumerate = lambda: [types.SimpleNamespace(name=t.name, daemon=bool(t.daemon), is_alive=lambda: True) for t in sched.threads if t.state != "finished"]
+    ns.TIMEOUT_MAX = _rt.TIMEOUT_MAX
+    ns.ThreadError = RuntimeError
     return ns
 
 
 def make_queue(sched):
     ns = types.SimpleNamespace()
     ns.Queue = lambda maxsize=0: ShimQueue(sched, maxsize)
+    ns.SimpleQueue = lambda: ShimQueue(sched, 0)
+    ns.LifoQueue = lambda maxsize=0: ShimLifoQueue(sched, maxsize)
     ns.Empty = _real_queue.Empty
     ns.Full = _real_queue.Full
     return ns
@@ -572,6 +783,13 @@ def make_time(sched, epoch=1_700_000_000.0):
     ns.sleep = sleep
     ns.time = lambda: epoch + sched.now
     ns.monotonic = lambda: sched.now
+    ns.perf_counter = lambda: sched.now
+    ns.time_ns = lambda: int((epoch + sched.now) * 1e9)
+    ns.monotonic_ns = lambda: int(sched.now * 1e9)
+    ns.perf_counter_ns = lambda: int(sched.now * 1e9)
+    import time as _real_time
+    for name in ("gmtime", "localtime", "strftime", "struct_time", "mktime", "ctime", "asctime", "process_time", "thread_time"):
+        setattr(ns, name, getattr(_real_time, name))
     return ns
 
 
